@@ -469,6 +469,12 @@ def c05_family(tier, n):
             fs = [src(n, required='snk,other', period=40), src(n + 4, 'side', period=25), sink('snk', srcs), sink('other', ['src;main>x'], [('slow', 60)])]
             out.append(timely(scn(f'mixed/{order}/{m}', fs), quiet=800))
 
+    # ... where the ephemeral branch also has a synchronized consumer of its own (the docstring's E -> G): G must get all of E's frames
+    for db in ['pass', 'slow150']:
+        fs = [src(n + 2, 'A', required='B', period=40), relay('B', ['A'], required='F'), relay('D', ['A?'], db, required='G'),
+              sink('F', ['B', 'D?;main>side']), sink('G', ['D'])]
+        out.append(timely(scn(f'ephemeral-rejoin-g/{db}', fs), quiet=900))
+
     # killed listener (hard kill at every step of the reference run)
     for m in ['?', '??']:
         fs = base(40) + [sink('lis0', [f'src{m}'])]
